@@ -307,21 +307,30 @@ def patient_case(case):
         got.append(sem.acquire('A', True))
 
     th = threading.Thread(target=waiter, daemon=True, name='vf-patient')
-    th.start()
-    end = time.monotonic() + secs
-    while time.monotonic() < end and not got:
-        time.sleep(0.05)
     viol = []
-    if got:
-        viol.append(V(f'{type(sem).__name__}({count}): all {count} permit(s) were held and none was released, yet a blocking acquire() returned '
-                      f'{got[0]!r} after waiting {secs}s at most', cls=type(sem).__name__, sym='acquired-without-release'))
-    else:
-        sem.release('A', held[0])
-        th.join(10)
-        if th.is_alive() or not got:
-            viol.append(V(f'{type(sem).__name__}({count}): a blocking acquirer that had waited {secs}s did not get the permit released then',
-                          cls=type(sem).__name__, sym='lost-wakeup'))
-    return {'verdict': 'violated' if viol else 'held', 'key': f'patient-{cls}-{count}-{secs}', 'violations': viol,
+    # (optionally with the package's loggers at DEBUG and a handler that formats every record - what `aws --debug` does)
+    with e2e.debug_logging(case.get('debug_log')):
+        th.start()
+        end = time.monotonic() + secs
+        while time.monotonic() < end and not got:
+            time.sleep(0.05)
+        if got:
+            viol.append(V(f'{type(sem).__name__}({count}): all {count} permit(s) were held and none was released, yet a blocking acquire() returned '
+                          f'{got[0]!r} after waiting {secs}s at most', cls=type(sem).__name__, sym='acquired-without-release'))
+        else:
+            rel = threading.Thread(target=lambda: sem.release('A', held[0]), daemon=True, name='vf-patient-release')
+            rel.start()
+            rel.join(10)
+            if rel.is_alive():
+                viol.append(V(f'{type(sem).__name__}({count}): release() of an issued token did not return while a blocking acquirer was waiting '
+                              f'(debug logging: {bool(case.get("debug_log"))}): {e2e.lib_frames(watchdog.all_stacks())}', cls=type(sem).__name__, sym='release-blocks',
+                              debug_log=bool(case.get('debug_log'))))
+            else:
+                th.join(10)
+                if th.is_alive() or not got:
+                    viol.append(V(f'{type(sem).__name__}({count}): a blocking acquirer that had waited {secs}s did not get the permit released then',
+                                  cls=type(sem).__name__, sym='lost-wakeup'))
+    return {'verdict': 'violated' if viol else 'held', 'key': f'patient-{cls}-{count}-{secs}-{bool(case.get("debug_log"))}', 'violations': viol,
             'stats': {'patient_waits': 1, 'patient_seconds': secs}, 'summary': {'got': repr(got)}}
 
 
@@ -497,6 +506,7 @@ def gen_cases(tier, seed):
     for cls in ('sliding', 'task'):
         for count in (1, 2):
             cases.append({'type': 'patient', 'cls': cls, 'count': count, 'secs': 5 if quick else 20})
+            cases.append({'type': 'patient', 'cls': cls, 'count': count, 'secs': 1, 'debug_log': True})
     # end-to-end probe after fault / cancel runs
     from .c04 import fault_or_cancel
 
